@@ -5,7 +5,7 @@ from props.common import gen_strategy, quiet_logging, Violations
 from worlds.full import FullWorld, default_cluster_spec, ReqObs
 
 ID = 'C44'
-TIERS = {'quick': {'runs': 2500, 'budget_s': 55, 'wall_cap': 120, 'block': 40},
+TIERS = {'quick': {'runs': 7500, 'budget_s': 55, 'wall_cap': 120, 'block': 40},
          'thorough': {'runs': 250000, 'budget_s': 840, 'wall_cap': 120, 'block': 40}}
 SHRINK_LISTS = ['windows', 'hb_script']
 COVERAGE_RULE = ('one run = real Cluster/Session (ConnectionHeartbeat thread, HeartbeatFuture, pools, control connection) over '
